@@ -767,7 +767,7 @@ func (c *Client) Do(ctx context.Context, q Query) (err error) {
 				return nil
 			default:
 				if err := c.handlePacket(ctx, code, q); err != nil {
-					if IsException(err) {
+					if code == proto.ServerCodeException && IsException(err) {
 						// Prevent query cancellation on exception.
 						gotException.Store(true)
 					}
